@@ -33,13 +33,17 @@ def case(draw):
         y = c[rng.integers(0, 3, ny)] + 0.1 * rng.standard_normal((ny, d))
     K = draw(st.one_of(st.integers(1, 15), st.sampled_from([1, 2, 15])))
     bound = draw(st.sampled_from(['inf', 'moderate', 'tight']))
-    return {'x': x, 'y': y, 'K': K, 'bound': bound, 'vector': draw(st.booleans()) and d == 1}
+    return {'x': x, 'y': y, 'K': K, 'bound': bound, 'vector': draw(st.booleans()) and d == 1,
+            'layout': draw(st.sampled_from(['C', 'C', 'F', 'strided', 'readonly'])), 'dtype': draw(st.sampled_from(['f8', 'f8', 'f4']))}
 
 
 def oracle(case, rec):
     import emd
     x = np.asarray(case['x'], dtype=float)
     y = np.asarray(case['y'], dtype=float)
+    if case.get('dtype', 'f8') == 'f4':       # single-precision features: distances are taken between the exact stored values
+        x = x.astype(np.float32).astype(float)
+        y = y.astype(np.float32).astype(float)
     K = int(case['K'])
     D = np.sqrt(((x[:, None, :] - y[None, :, :]) ** 2).sum(axis=2))
     if case['bound'] == 'inf':
@@ -49,6 +53,12 @@ def oracle(case, rec):
     else:
         bound = float(np.quantile(D.min(axis=1), 0.5)) + 1e-9
     xa, ya = (x[:, 0].copy(), y[:, 0].copy()) if case['vector'] else (x.copy(), y.copy())
+    if case.get('dtype', 'f8') == 'f4':
+        xa, ya = xa.astype(np.float32), ya.astype(np.float32)
+    from .. import gens
+    xa, ya = gens.relayout(xa, case.get('layout', 'C')), gens.relayout(ya, case.get('layout', 'C'))
+    rec.cls('layout=' + case.get('layout', 'C'))
+    rec.cls('dtype=' + case.get('dtype', 'f8'))
     ktag = 'K=1' if K == 1 else 'K>1'
     try:
         xi, yi = emd.cycles.kdt_match(xa, ya, K=K, distance_upper_bound=bound)
